@@ -25,13 +25,20 @@ def generate(tier, seed):
     src = ["use crate::terms::*;\nuse crate::c12::*;\nuse crate::vk;\n"]
     hs = []
     for a, b in shapes.pairs_same_family():
-        n = "c12_pair__%s__%s" % (a, b)
-        body = ("    let (a, ra) = %s;\n    let (b, rb) = %s;\n    agrees(&a, &ra, &b, &rb);\n    agrees(&b, &rb, &a, &ra);\n"
-                "    agrees_borrowed(&a, &ra, &b, &rb);\n    agrees_borrowed(&b, &rb, &a, &ra);\n"
-                "    vk::leak(a); vk::leak(b); vk::leak(ra); vk::leak(rb);" % (L[a][0], L[b][0]))
-        src.append(c11.fn(n, body))
-        hs.append(Harness(n, "OwnedTerm::cmp and BorrowedTerm::cmp == Erlang term order (both argument orders) on shapes %s x %s" % (a, b),
-                          unwind=c11.UNW, unwindset=c11.UWS, recursion=c11.rec_for([a, b]), cap_s=c11.CAP, cuts=c11.cuts_for([a, b])))
+        heavy = "float" in (a, b)
+        parts = [("", ["agrees(&a, &ra, &b, &rb);", "agrees(&b, &rb, &a, &ra);", "agrees_borrowed(&a, &ra, &b, &rb);",
+                       "agrees_borrowed(&b, &rb, &a, &ra);"])]
+        if heavy:   # one comparison per query: f64 arithmetic against the exact integer reference is the expensive kernel
+            parts = [("_ab", ["agrees(&a, &ra, &b, &rb);"]), ("_ba", ["agrees(&b, &rb, &a, &ra);"]),
+                     ("_borrowed_ab", ["agrees_borrowed(&a, &ra, &b, &rb);"]), ("_borrowed_ba", ["agrees_borrowed(&b, &rb, &a, &ra);"])]
+        for suffix, calls in parts:
+            n = "c12_pair__%s__%s%s" % (a, b, suffix)
+            body = ("    let (a, ra) = %s;\n    let (b, rb) = %s;\n    %s\n"
+                    "    vk::leak(a); vk::leak(b); vk::leak(ra); vk::leak(rb);" % (L[a][0], L[b][0], "\n    ".join(calls)))
+            src.append(c11.fn(n, body))
+            hs.append(Harness(n, "OwnedTerm::cmp / BorrowedTerm::cmp == Erlang term order on shapes %s x %s %s" % (a, b, suffix),
+                              unwind=c11.UNW, unwindset=c11.UWS, recursion=c11.rec_for([a, b]), cap_s=c11.CAP,
+                              cuts=c11.cuts_for([a, b]), typed_heap=c11.has_container([a, b])))
     for a, bs in c11.cross_groups().items():
         n = "c12_cross__%s" % a
         body = "    let (a, ra) = %s;\n" % L[a][0]
@@ -42,5 +49,5 @@ def generate(tier, seed):
         src.append(c11.fn(n, body))
         hs.append(Harness(n, "type-rank order (number < atom < reference < fun < port < pid < tuple < map < nil < list < bit-string) for %s "
                              "against one representative of every other rank: %s" % (a, bs),
-                          unwind=c11.UNW, unwindset=c11.UWS, recursion=c11.rec_for([a] + bs), cap_s=c11.CAP, cuts=c11.cuts_for([a] + bs)))
+                          unwind=c11.UNW, unwindset=c11.UWS, recursion=c11.rec_for([a] + bs), cap_s=c11.CAP, cuts=c11.cuts_for([a] + bs), typed_heap=c11.has_container([a] + bs)))
     return "\n".join(src), hs
